@@ -26,7 +26,11 @@ links the two:
   every correct IEEE parser (`PnumCorrect`; the driver's `pnumS` is one) and every formatter whose text denotes the float —
   in particular the text of the Ryu pipeline (`C16Link.appendF`, by `C16Link.ryu_text_is_shortest`: `Num.parsesTo`).
 
-LEFT AS HYPOTHESES (local to the numbers of the frame, as in `C14ToJson.tojson_parses_local`):
+BOTH HYPOTHESES BELOW ARE DISCHARGED IN `QF/Props/C14RoundTrip.lean` for the formatter of C16 (`ryuFmt`) and every correct
+parser: `readjson_tojson`, `gen_json_roundtrip_end_to_end` (no `_partial`), and the configured statement
+`readjson_cfg_tojson` (`readJsonCfgS … = .ok (jsonReread f)`). The theorems of this file stay as the abstract lemmas.
+
+LEFT AS HYPOTHESES HERE (local to the numbers of the frame, as in `C14ToJson.tojson_parses_local`):
 * `FrameOK fmt f` — the formatter's text for the frame's floats is a JSON number TOKEN (`C14ToJson.NumTok`; proved there
   for `[-]d+` and `[-]d+.d+` texts, `numTok_digits` / `numTok_frac`, not yet derived from `Num.isShortestRoundTrip`);
 * the int clause of `ReadsBack` — `pnum (intText v) = some (Num.ofDecimal (v < 0) |v| 0)`: that the decimal text of an int
@@ -497,7 +501,7 @@ every float formatter `fmt` that writes a JSON number token for the frame's floa
 frame `jsonUnconfigured (jsonReread f)`: the driver's `jsonReread f` (ints as equal-valued floats, strings as a JSON
 decoder returns them, bools and floats as they are) with the columns sorted by name and the enum columns as string
 columns, which is all that is left when neither `ColumnOrder` nor `Enums` is supplied. -/
--- FULL STATEMENT (not proved; `_partial` = the hypotheses `hok`, `hr` on formatter and parser are left):
+-- FULL STATEMENT (proved as `C14RoundTrip.readjson_tojson`; here `_partial` = the hypotheses `hok`, `hr` on formatter and parser are left):
 --   theorem readjson_tojson (pnum : Bytes → Option UInt64) (hp : PnumCorrect pnum) (f : LFrame) (ht : JsonTyped f)
 --       (hfin : no float cell of f is an infinity) :
 --       (Json.parse (toJSON ryuFmt f)).map (readJsonS pnum) = some (.ok (jsonUnconfigured (jsonReread f)))
